@@ -49,7 +49,6 @@ ModelFids(e) ==
                                          t.out # "ok" /\ FinalSymptom(t, e.fmt) = Symptom(e)}} \ {"-"}
   ELSE {}
 GuardFids(e) == {fid \in KnownDeviations : DevExplains(fid, e)}
-Pick(S) == CHOOSE x \in S : \A y \in S : x <= y     \* deterministic choice (TLC orders strings)
 
 IdOk(e) == lastid = -1 \/ e.id = lastid \/ e.id = lastid + Stride \/ e.id < lastid
 
@@ -71,7 +70,7 @@ Step ==
             fids == IF sym = "none" THEN {} ELSE GuardFids(e) \cup ModelFids(e)
             good == (sym = "none" \/ fids # {}) /\ IdOk(e)
         IN /\ viol' = IF good THEN viol ELSE Append(viol, l)
-           /\ devs' = IF good /\ sym # "none" THEN Append(devs, <<l, Pick(fids)>>) ELSE devs
+           /\ devs' = IF good /\ sym # "none" THEN Append(devs, <<l, FirstOf(fids)>>) ELSE devs
            /\ lastid' = e.id
            /\ nparse' = nparse + 1
   /\ l' = l + 1
